@@ -584,7 +584,7 @@ impl World {
                 if self.subs[i].stream.is_none() || self.subs[j].stream.is_none() {
                     continue;
                 }
-                if self.subs[i].lagged || self.subs[j].lagged {
+                if self.subs[i].lagged || self.subs[j].lagged || self.subs[i].spec.policy != Policy::Eager {
                     continue;
                 }
                 let a = self.subs[i].taps.last().unwrap().borrow();
@@ -876,9 +876,9 @@ impl World {
         let twin = spec.twin && spec.batched && !spec.pipeline.iter().any(|s| s.is_dynamic());
         let mut spec = spec;
         spec.twin = twin;
-        if twin {
-            spec.policy = Policy::Eager;
-        }
+        // twins are compared after every operation when eager, otherwise only once both streams
+        // have been drained at the end of the case
+        let _ = twin;
         let keep_log = twin;
         let late_mismatch: Rc<RefCell<Option<String>>> = Rc::new(RefCell::new(None));
         let (stream, taps, limits, mismatch) = if spec.convert == 0 || twin {
@@ -1538,7 +1538,7 @@ fn run_inner(case: &VecCase, prop: Prop) -> R<(CaseReport, Feat)> {
                 w.drain(i, 10_000)?;
             }
         }
-        w.compare_twins()?;
+        w.compare_twins_final()?;
     }
     if w.ck.f.resets > 0 && w.subs.iter().any(|s| !s.lagged && !s.is_twin) {
         w.ck.f.nonlagging_sub_in_reset_case = true;
